@@ -17,16 +17,36 @@ THEOREMS = ["C05_flat_vs_structured", "C05_fuel_bound", "C05_fuel_mono", "C05_al
 DRIVERS = ["core"]
 RULE = ("programs = pre [n body] post with n in 1..6 or omitted (=2), bodies of 1..4 items from the core-language generator "
         "(notes with flags, rests, n-notes, l/o/v/q/t and relative state commands, chords, tuplets, Sub blocks, comments, all "
-        "separator forms), optional ':' part, loops nested up to depth 3 inside loop bodies, ':' parts and Sub{...}; each "
+        "separator forms; track / channel / voice / tempo / controller commands), optional ':' part, loops nested up to depth 3 inside loop bodies, ':' parts and Sub{...}; each "
         "compared with its fully unrolled text and with the text where only the outermost loops are unrolled. "
         "non-trivial = distinct source with a loop of count >= 2 or a ':'")
 TRUSTED = ["the lexer is compositional at command boundaries (a body followed by a space lexes the same before ']' and "
            "before its own next copy) - this is C03's printer lemma, here exercised but not proved"]
 ASSUMES = ["counts are literals 1..6 or omitted; an omitted count is never followed by '(', '=' or a digit (read_loop would "
-           "take it as the count)", "TimeBase and track switching are not generated inside bodies"]
+           "take it as the count)",
+           "commands are closed in the sense of DESIGN 6.0: an unparenthesised expression argument (@40, TEMPO=90) is ended by "
+           "';' - otherwise it absorbs a following ':' as an argument separator and there is no loop break in the token list",
+           "TimeBase(...) is not generated inside bodies: it is a parse-time directive (applied once per occurrence in the "
+           "TEXT, also in a ':' part that is never executed), not a command that is executed"]
 
 LEAF_FEATS = {"loop": False, "chord": True, "tuplet": True, "sub": True, "comments": True, "note_n": True}
 COUNTS = ["1", "2", "3", "4", "5", "6", "", "2", "3", "1"]
+
+
+# commands that switch track / channel / voice or write controllers, all CLOSED (see ASSUMES): state that must be
+# carried from pass to pass exactly as in the unrolled text
+TRACK_POOL = ["TR(1)", "TR(2)", "TR(3)", "Track(5)", "TRACK(0)", "TR(10)", "TR(16)", "CH(1)", "CH(2)", "CH(10)", "Channel(16)",
+              "@1;", "@5;", "@40;", "@128;", "@(25)", "Tempo(120)", "TEMPO=90;", "Tempo(500)", "y7,100;", "y(10,20)", "M(64)", "V(100)",
+              "P(32)", "EP(90)", "REV(40)", "PB(100)", "p(64)", "BR(12)", "TimeSignature(3,4)", "KeyShift(2)", "TrackKey(-1)",
+              "KF+(fc)", "KF-(b)", "KeyFlag=(0,0,0,0,0,0,0)", "TrackSync;", "TIME(2:1:0)", "TIME(96)", "MeasureShift(1)"]
+
+
+def leaf(rng, depth=None, n=None):
+    s = mmlgen.block(rng, rng.choice([0, 1, 1, 2]) if depth is None else depth, n or rng.randrange(1, 4), LEAF_FEATS)
+    if rng.random() < 0.25:
+        t = rng.choice(TRACK_POOL)
+        s = s + " " + t + " " if rng.random() < 0.5 else t + " " + s
+    return s
 
 
 def gen_items(rng, depth, n_items):
@@ -41,7 +61,7 @@ def gen_items(rng, depth, n_items):
         elif depth > 0 and k < 0.50:
             out.append(("sub", gen_items(rng, depth - 1, rng.randrange(1, 3))))
         else:
-            out.append(("text", mmlgen.block(rng, rng.choice([0, 1, 1, 2]), rng.randrange(1, 4), LEAF_FEATS)))
+            out.append(("text", leaf(rng)))
     return out
 
 
@@ -172,8 +192,8 @@ def run(ctx):
     # the two shapes of the property, literally, for every count: [n body] = body^n, [n a : b] = (a b)^(n-1) a
     pairs = []
     for _ in range(n // 4):
-        a = mmlgen.block(rng, 2, rng.randrange(1, 5), LEAF_FEATS)
-        b = mmlgen.block(rng, 2, rng.randrange(1, 4), LEAF_FEATS)
+        a = leaf(rng, 2, rng.randrange(1, 5))
+        b = leaf(rng, 2, rng.randrange(1, 4))
         k = rng.randrange(1, 7)
         pairs.append(("[%d %s ] c" % (k, a), " ".join([a] * k) + "  c", "[n body]", True))
         pairs.append(("[%d %s : %s ] c" % (k, a, b), " ".join([a + " " + b] * (k - 1) + [a]) + "  c", "[n a : b]", True))
